@@ -32,7 +32,8 @@ def gen_world(seed, tier):
     cname = rng.choice(["kPathCoverCycles", "kPathCoverCycles", "kFlowDecompCycles", "kMinPathErrorCycles", "kLeastAbsErrorsCycles"])
     k = rng.randint(1, 3)
     return {"class": cname, "graph": g, "k": k, "seed": rng.randrange(1 << 30),
-            "noise": rng.random() < 0.6, "closed": rng.choice([0, 1, 2, 3, 5]), "rep": rng.choice([1, 2, 3])}
+            "noise": rng.random() < 0.6, "closed": rng.choice([0, 1, 2, 3, 5]), "rep": rng.choice([1, 2, 3]),
+            "node_mode": rng.random() < 0.25}
 
 
 def plans(world, info, seed, tier):
@@ -109,9 +110,15 @@ def execute(spec):
     with W.active(sim):
         G = gen.to_nx(g, "flow")
         cls = models.cls_of(cname)
+        node_mode = bool(world.get("node_mode"))
+        if node_mode:
+            for x in G.nodes():
+                G.nodes[x]["flow"] = 1
         try:
             if cname == "kPathCoverCycles":
-                model = cls(G, k=k)
+                model = cls(G, k=k, cover_type="node") if node_mode else cls(G, k=k)
+            elif node_mode:
+                model = cls(G, flow_attr="flow", flow_attr_origin="node", k=k, weight_type=int)
             else:
                 model = cls(G, flow_attr="flow", k=k, weight_type=int)
         except Exception as e:
@@ -153,10 +160,17 @@ def execute(spec):
                 vals[var.index] = x
             return vals
         sim.stub = stub
+        user_walks = None
         try:
             model.solver.optimize()
             model._is_solved = True
             walks = model.get_solution_walks()
+            if node_mode:
+                # what the user gets: the walks of the expanded graph condensed back to the original node names
+                try:
+                    user_walks = model.get_solution(remove_empty_walks=False)["walks"]
+                except TypeError:
+                    user_walks = model.get_solution()["walks"]
         except Exception as e:
             vs.append(Violation(ID, "C14.exception", cname, {"exc": type(e).__name__, "msg": str(e)[:200]}))
             walks = None
@@ -164,6 +178,23 @@ def execute(spec):
         if len(walks) != k:
             vs.append(Violation(ID, "C14.layer_count", cname, {"k": k, "walks": len(walks)}))
         E = {(e[0], e[1]) for e in g["edges"]}
+        if node_mode:
+            E = {(u, v) for u, v in SG.edges() if u != SG.source and v != SG.sink}
+            # user-visible walks: node x is visited as often as its expanded edge (x.0, x.1) is traversed, and
+            # consecutive nodes are edges of the caller's graph
+            OE = {(e[0], e[1]) for e in g["edges"]}
+            if user_walks is not None and len(user_walks) == len([es for es in layers]):
+                for i, (uw, es) in enumerate(zip(user_walks, layers)):
+                    visits = {}
+                    for (a, b), m in counts[i].items():
+                        if isinstance(a, str) and isinstance(b, str) and a.endswith(".0") and b.endswith(".1") and a[:-2] == b[:-2]:
+                            visits[a[:-2]] = visits.get(a[:-2], 0) + m
+                    got = {}
+                    for x in uw:
+                        got[x] = got.get(x, 0) + 1
+                    if got != visits or any((a, b) not in OE for a, b in zip(uw[:-1], uw[1:])):
+                        vs.append(Violation(ID, "C14.condensed_walk_differs", cname, {"layer": i, "user_walk": uw, "expected_visits": visits}))
+                        break
         for i, (wk, es) in enumerate(zip(walks, layers)):
             if not es:
                 if wk != []:
@@ -197,7 +228,7 @@ def execute(spec):
             "nontrivial": stats["closed"] > 0, "fired": {}, "probes": {"closed_walks_spliced": stats["closed"], "zero_layer": stats["zero_layers"],
                                                                       "multiplicity_gt1": 1 if stats["max_mult"] > 1 else 0,
                                                                       "noise": 1 if world["noise"] else 0},
-            "sim_s": 0.0, "invocations": 1, "counters": {"class:" + cname: 1},
+            "sim_s": 0.0, "invocations": 1, "counters": {"class:" + cname: 1, "node_mode": 1 if world.get("node_mode") else 0},
             "summary": {"walks": walks, "layers": [[list(e) for e in es] for es in layers]}}
 
 
